@@ -48,6 +48,11 @@ def run(ctx):
                 # source: the Ok payload of split_secret(..)?
                 ret_ok = x is not None and any(s_.op == "call" and B.cname(s_) == "vsss_rs::split_secret" for s_ in subterms(x)) and not any(s_.op == "loop" for s_ in subterms(x))
         ctx.ob("E6.split", "split_with_rng/result", ret_ok, "result is the collected 1:1 image of the shares returned by split_secret", where=where(f))
+    # own parameter checks of split never refuse a valid (threshold, count): decided by folding the comparison terms on
+    # the whole grid 0..=300 x 0..=300
+    grid = [(t_, n_) for t_ in list(range(0, 8)) + [127, 128, 254, 255, 256, 300] for n_ in list(range(0, 8)) + [127, 128, 254, 255, 256, 300]]
+    for fk_ in ("SecretKey<C>::split_with_rng", "SecretKey<C>::split"):
+        F.check_range_rejections(ctx, "E4.range", P, fk_, ("threshold", "limit"), lambda t_, n_: 2 <= t_ <= n_ <= 255, grid, "(threshold, limit)")
     f = ctx.need_fn("E6.split", "SecretKey<C>::split")
     if f is not None:
         ev = evaluate(f)
